@@ -62,6 +62,63 @@ func inKeys(m map[string]struct{}, k []byte) bool {
 	return ok
 }
 
+// ---- helpers for replaying solver models on the real code ----
+
+func verifMkSlice[T any](n, c int, vals map[int]T) []T {
+	if c < n {
+		c = n
+	}
+	s := make([]T, n, c)
+	full := s[:c]
+	for k, v := range vals {
+		if k >= 0 && k < c {
+			full[k] = v
+		}
+	}
+	return s
+}
+
+func verifClonePJ(p ParsedJson) ParsedJson {
+	r := ParsedJson{Message: append([]byte(nil), p.Message...), Tape: append([]uint64(nil), p.Tape...)}
+	if p.Strings != nil {
+		r.Strings = &TStrings{B: append([]byte(nil), p.Strings.B...)}
+	}
+	return r
+}
+
+// verifClone deep-copies the argument types contracts use under old().
+func verifClone[T any](x T) T {
+	var r any = x
+	switch v := any(x).(type) {
+	case *Iter:
+		if v != nil {
+			c := *v
+			c.tape = verifClonePJ(v.tape)
+			r = &c
+		}
+	case *Object:
+		if v != nil {
+			c := *v
+			c.tape = verifClonePJ(v.tape)
+			r = &c
+		}
+	case *Array:
+		if v != nil {
+			c := *v
+			c.tape = verifClonePJ(v.tape)
+			r = &c
+		}
+	case *ParsedJson:
+		if v != nil {
+			c := verifClonePJ(*v)
+			r = &c
+		}
+	case []byte:
+		r = append([]byte(nil), v...)
+	}
+	return r.(T)
+}
+
 // ---- S2: tape model ----
 
 func tagOf(v uint64) Tag    { return Tag(v >> 56) }
